@@ -370,6 +370,16 @@ func runCheck(prop, tier, repo, verif, only string, updateBaseline bool) int {
 				lines = append(lines, fmt.Sprintf("KNOWN-FINDING: property=%s %s %s", prop, o.Name, k.What))
 				continue
 			}
+			// an undecided memory-safety or postcondition obligation may still have a counterexample that the
+			// real code confirms (the candidate comes from the query with bounded quantifier instances)
+			if o.Status == "unknown" && o.Text != "" && (strings.HasPrefix(o.Kind, "safe.") || o.Kind == "ensures") {
+				if rp, confirmed := replayObligation(w, replayDir, prop, o); confirmed {
+					lines = append(lines, fmt.Sprintf("VIOLATION property=%s replay=%s", prop, rp))
+					fmt.Printf("FAILED %s (counterexample confirmed on the real code) at %s: %s\n", o.Name, o.Pos, o.Desc)
+					nViol++
+					continue
+				}
+			}
 			if inBase[o.Name] || baseFuncClean(base, o.Func) || o.Kind == "contract" {
 				rp := writeReplay(replayDir, prop, o, nil, "obligation was discharged on the baseline tree and is no longer decided: "+firstLine(o.Raw))
 				lines = append(lines, fmt.Sprintf("VIOLATION property=%s replay=%s no-failing-input-found", prop, rp))
